@@ -63,10 +63,8 @@ fn too_big_for_count(s: &str) -> bool {
 fn extreme(e: &mut Ent, for_count: bool, excluded: &mut u64) -> String {
     for _ in 0..8 {
         let s = *e.pick(EXTREME);
-        if for_count && too_big_for_count(s) {
-            *excluded += 1;
-            continue;
-        }
+        // (counts that would take for ever are part of the domain: they have to be refused)
+        let _ = (for_count, &excluded);
         return s.to_string();
     }
     "3".to_string()
@@ -94,7 +92,7 @@ pub fn project_of(c: &Case) -> (Project, u64) {
                 let a = extreme(&mut e, false, &mut excluded);
                 let b = extreme(&mut e, false, &mut excluded);
                 let op = *e.pick(&ops[..]);
-                let line = match e.below(16) {
+                let line = match e.below(20) {
                     0 => format!(".align {}", extreme(&mut e, true, &mut excluded)),
                     1 => format!(".loop {} {{ nop }}", extreme(&mut e, true, &mut excluded)),
                     2 => format!("* = {}", a),
@@ -110,12 +108,29 @@ pub fn project_of(c: &Case) -> (Project, u64) {
                     12 => format!("lda #<{}\nbne {}", a, b),
                     13 => format!(".if {} {} {} {{ nop }} else {{ asl }}", a, op, b),
                     14 => format!(".loop {} {{ .byte index {} {} }}", e.below(4), op, a),
+                    15 => format!(".if defined(defined(c{})) {{ nop }}\nlda #defined(defined({}))", e.below(3), a),
+                    16 => {
+                        // strings that double
+                        let k = 20 + e.below(30);
+                        let mut t = String::from(".const sq0 = \"ab\"\n");
+                        for i in 1..=k {
+                            t.push_str(&format!(".{} sq{} = sq{} + sq{}\n", if e.chance(1, 2) { "const" } else { "var" }, i, i - 1, i - 1));
+                        }
+                        t.push_str(&format!(".text sq{}", k));
+                        t
+                    }
+                    17 => format!(".macro never() {{\n    .loop {} {{ }}\n}}\nnop", a),
+                    18 => format!(".import super{} from \"libq.asm\"", if e.chance(1, 2) { " as xq" } else { "" }),
                     _ => format!("jmp ({} {} {})", a, op, b),
                 };
                 t.push_str(&line);
                 t.push('\n');
             }
-            Project::single(&t)
+            let mut p = Project::single(&t);
+            if t.contains("libq.asm") {
+                p.files.insert("libq.asm".into(), "fooq: rts\n".into());
+            }
+            p
         }
         Shape::ImportGraph if e.chance(1, 4) => {
             // a ring of imports that does not pass through the entry file, every path in one of its spellings
@@ -533,6 +548,7 @@ pub fn prop_project(p: &Project, c: &Case, log: &mut CaseLog) -> Verdict {
             log.label("inconclusive:watchdog");
             Verdict::Pass
         }
+        WorkerResult::Blocked(w) => Verdict::fail(format!("process-never-ends|deadlock|shape={:?}", c.shape), format!("{}\nno result after 30 s and none is coming: {}", text(), w)),
         WorkerResult::Died(st) => Verdict::fail(format!("process-aborted|{}|shape={:?}", st, c.shape), text()),
         WorkerResult::Ok(v) => {
             if let Some(st) = v.get("stages").and_then(|s| s.as_array()) {
@@ -588,7 +604,7 @@ pub fn strategy(shapes: Vec<Shape>) -> impl Strategy<Value = Case> {
 }
 
 pub fn run_check(ctx: &mut Ctx) {
-    ctx.rule = "projects of 10 shapes (grammar programs with hostile trivia; the same with character mutations; fragments of the example sources; extreme integers from a boundary list as arguments of .align/.loop/* =/shifts/division/segment and bank options; import graphs over <= 4 files incl. self-import, cycles, diamonds, missing files, sub-directories; mutually dependent segments; nested loops with branches at the edge of range; forward branches, immediates, loop counts and alignments whose value is within a few bytes of the limit; hostile names; nesting up to depth 64) run through parse -> codegen(build) -> merge/listing/vice -> format -> codegen(greedy analysis) in worker sub-processes. oracle: no panic, no abnormal exit, no repeated pass-state digest (proof of non-termination), binary or diagnostic, diagnostic spans inside project files. non-trivial = >= 2 files, extreme integers, >= 3 passes or mutated; distinct by case hash".into();
+    ctx.rule = "projects of 10 shapes (grammar programs with hostile trivia; the same with character mutations; fragments of the example sources; extreme integers from a boundary list (up to 2^63 and beyond, nothing excluded) as arguments of .align/.loop/* =/shifts/division/segment and bank options, strings that double, defined() inside defined(), import of `super`; import graphs over <= 4 files incl. self-import, cycles, diamonds, missing files, sub-directories; mutually dependent segments; nested loops with branches at the edge of range; forward branches, immediates, loop counts and alignments whose value is within a few bytes of the limit; hostile names; nesting up to depth 64) run through parse -> codegen(build) -> merge/listing/vice -> format -> codegen(greedy analysis) in worker sub-processes. oracle: no panic, no abnormal exit, no repeated pass-state digest (proof of non-termination), no worker whose threads all sleep without an answer (deadlock), binary or diagnostic, diagnostic spans inside project files. non-trivial = >= 2 files, extreme integers, >= 3 passes or mutated; distinct by case hash".into();
     ctx.assumptions.push("pass observer hook digest covers everything that determines the next pass; a watchdog kill or the pass bound is inconclusive, never a violation".into());
     let all = vec![Shape::Grammar, Shape::Mutated, Shape::Extreme, Shape::Extreme, Shape::ImportGraph, Shape::ImportGraph, Shape::SegmentDeps, Shape::NestedLoops, Shape::Names, Shape::Nesting, Shape::Fragments, Shape::Borderline];
     let n = ctx.tier.pick(64_000, 1_600_000);
@@ -601,8 +617,9 @@ pub fn run_check(ctx: &mut Ctx) {
     }
     let inc = ctx.label_count("inconclusive");
     ctx.health(inc * 100 / total < 20, format!("{}% inconclusive", inc * 100 / total));
-    let ex = ctx.label_count("excluded:count-above-70000");
-    ctx.excluded.insert(".loop/.align/bank size arguments above 70000 (termination not decidable without a clock)".into(), ex);
+    // a case that the watchdog had to end is no verdict, but it is not nothing either: the check is then inconclusive
+    let wd = ctx.label_count("inconclusive:watchdog");
+    ctx.health(wd == 0, format!("{} case(s) were still being computed after 30 s and were ended by the watchdog (inconclusive, not a violation)", wd));
 }
 
 pub fn replay(ctx: &mut Ctx, case: &Value) {
